@@ -66,7 +66,9 @@ pub fn gen_jitter_ops(rng: &mut Prng, max_ops: u64, c16_bias: bool) -> Vec<Op> {
         let op = match rng.weighted(&mix) {
             0 => Op::U32,
             1 => Op::U64,
-            2 => Op::Fill(match rng.below(6) {
+            2 => Op::Fill(match rng.below(if max_ops >= 24 { 7 } else { 6 }) {
+                // a request that spans many collections (only where the round count is small)
+                6 => rng.range(257, 1100) as u32,
                 0 => 0,
                 1 | 2 => rng.range(1, 4) as u32,
                 3 => rng.range(5, 8) as u32,
@@ -288,7 +290,7 @@ fn candidates(m: &JitterModel, op: &Op, max_extra: u64) -> Result<Vec<(JitterMod
     let run = |mut mm: JitterModel| -> Result<(JitterModel, Out), ()> {
         // a very long fill legitimately needs many readings: the stuck allowance is on top of them
         let need = match op {
-            Op::Fill(n) if *n > 4096 => (*n as u64 / 8 + 1) * (1 + 3 * (mm.rounds as u64 + 1)),
+            Op::Fill(n) if *n > 256 => (*n as u64 / 8 + 1) * (1 + 3 * (mm.rounds as u64 + 1)),
             _ => 0,
         };
         let cap = mm.reads() + max_extra + need;
